@@ -53,6 +53,15 @@ func vkRefreshScenarios(thorough bool) []vkPScenario {
 			}
 		}
 	}
+	// first start: the directory does not exist until the refresh creates it, and the API is already serving
+	for a := 0; a < len(ops); a++ {
+		out = append(out, vkPScenario{Bound: bound, White: vkWhite, Fresh: true, Threads: []vkPOp{refresh, ops[a]}})
+	}
+	for a := 0; a < len(ops); a++ {
+		for b := a; b < len(ops); b++ {
+			out = append(out, vkPScenario{Bound: 2, White: vkWhite, Fresh: true, Threads: []vkPOp{refresh, ops[a], ops[b]}})
+		}
+	}
 	for i := range out {
 		out[i].Name = fmt.Sprintf("refresh-%d", i)
 	}
